@@ -37,6 +37,32 @@ type skGen struct {
 	ntmp  int
 	nres  int // number of results of the function being translated
 	known map[string]bool
+	lits  map[string]ast.Expr // package-level `const X = <literal>` of the file(s) being translated
+}
+
+// literalConsts collects the package-level constants that are defined by a literal (number or string).
+func literalConsts(files []*ast.File) map[string]ast.Expr {
+	m := map[string]ast.Expr{}
+	for _, f := range files {
+		for _, d := range f.Decls {
+			gd, ok := d.(*ast.GenDecl)
+			if !ok || gd.Tok != token.CONST {
+				continue
+			}
+			for _, sp := range gd.Specs {
+				vs, ok := sp.(*ast.ValueSpec)
+				if !ok || len(vs.Names) != len(vs.Values) {
+					continue
+				}
+				for i, n := range vs.Names {
+					if lit, ok := vs.Values[i].(*ast.BasicLit); ok {
+						m[n.Name] = lit
+					}
+				}
+			}
+		}
+	}
+	return m
 }
 
 func (g *skGen) src(n ast.Node) string {
@@ -128,6 +154,9 @@ func (g *skGen) expr(e ast.Expr, pre *[]string) string {
 		case "false":
 			return "EFalse"
 		}
+		if lit, ok := g.lits[x.Name]; ok { // a named constant of the command's own file stands for its literal
+			return g.expr(lit, pre)
+		}
 		return "EId " + coqString(x.Name)
 	case *ast.BasicLit:
 		switch x.Kind {
@@ -177,6 +206,9 @@ func (g *skGen) expr(e ast.Expr, pre *[]string) string {
 			}
 			fields = append(fields, fmt.Sprintf("(%s, %s)", coqString(k.Name), g.expr(kv.Value, pre)))
 		}
+		// keyed fields in a canonical (alphabetical) order: the order in which a keyed literal lists its fields carries no
+		// meaning (calls inside the values have been hoisted in source order already)
+		sort.Strings(fields)
 		return fmt.Sprintf("EStruct %s %s", coqString(g.src(x.Type)), coqList(fields))
 	case *ast.CallExpr:
 		if name, ok := g.convName(x); ok {
@@ -653,6 +685,7 @@ func genSkeletons() {
 		{"profiler", "cmd/seccomp-profiler/main.go"},
 	} {
 		f := parseFile(fset, filepath.Join(*repo, cmd.rel))
+		g.lits = literalConsts([]*ast.File{f})
 		fm := topFuncs([]*ast.File{f})
 		var ns []string
 		for n := range fm {
